@@ -134,6 +134,9 @@ std::vector<Scen> scenarios() {
     for (const char* t : { "[1.0000000000000000000000000000000000000000000000000000000000000000000000000000001]", "{\"n\":-eeeeeeeeeeeeeeeeeeeeeeeeeeeeeeeeeeeeeeeeeeeeeeeeeeeeeeeeeeeeeeeeeeeeeeeeeeeeeeeee}", "[12345678901234567890123456789012345678901234567890123456789012,\"x\"]",
                           "[\"0123456789012345678901234567890123456789012345678901234567890123456789012345678901234567890123456789\",{\"k0123456789012345678901234567890123456789012345678901234567890123456789\":[]}]" })
         for (int entry = 0; entry < 2; entry++) add(std::string("Parse") + (entry ? "WithLength" : "") + "(long token " + std::string(t).substr(0, 12) + "...)", none, [t, entry](Ctx& c) { c.res_tree = entry ? LIB(cJSON_ParseWithLength(t, strlen(t))) : LIB(cJSON_Parse(t)); c.failed = !c.res_tree; c.repr = wt(c.res_tree); });
+    // several number literals beyond the fixed scratch size in one text, each longer than the one before (a scratch block that is grown between literals)
+    { static const std::string many[] = { "[" + std::string(70, '1') + "," + std::string(90, '2') + "," + std::string(130, '3') + ",3]", "{\"a\":1." + std::string(64, '4') + ",\"b\":[1." + std::string(65, '5') + "e1,-" + std::string(200, '6') + "]}" };
+      for (const std::string& s : many) for (int entry = 0; entry < 2; entry++) { const char* t = s.c_str(); add(std::string("Parse") + (entry ? "WithLength" : "") + "(growing long numbers " + s.substr(0, 8) + "...)", none, [t, entry](Ctx& c) { c.res_tree = entry ? LIB(cJSON_ParseWithLength(t, strlen(t))) : LIB(cJSON_Parse(t)); c.failed = !c.res_tree; c.repr = wt(c.res_tree); }); } }
     // ---- detach / delete / compare never allocate: a refused request cannot happen, they are listed so that N = 0 is part of the evidence
     add("DetachItemFromObject", [](Ctx& c) { c.trees.push_back(P("{\"a\":1,\"b\":2}")); }, [](Ctx& c) { cJSON* r = LIB(cJSON_DetachItemFromObject(c.trees[0], "a")); c.failed = !r; c.res_tree = r; c.repr = wt(c.trees[0]); });
     return S;
